@@ -6,6 +6,7 @@ afterwards; nothing in /repo needs to change.
 import contextlib
 import errno
 import io
+import os
 import random as _pyrandom
 import sys
 
@@ -504,7 +505,25 @@ def install_fs(ctx, script=None):
     """SimFS installed as mofun.helpers.open (the path branch of Atoms.load/save for lmpdat/cif/mol):
     helpers.use_or_open looks `open` up in its module globals before builtins."""
     import mofun.helpers
+    import builtins
+    import mofun.atoms
     fs = SimFS(ctx, script)
     patch(ctx, mofun.helpers, "open", fs.open)
+    # ... and, so that the seam does not depend on WHICH open() the library uses for a path, every open of a path under
+    # /sim/ is redirected (module globals of mofun.atoms, builtins.open, io.open - pathlib goes through io.open);
+    # all other paths reach the real file system untouched
+    real_open = builtins.open
+
+    def redirecting_open(file, mode="r", *a, **kw):
+        try:
+            name = os.fspath(file) if not isinstance(file, int) else None
+        except TypeError:
+            name = None
+        if isinstance(name, str) and name.startswith("/sim/"):
+            return fs.open(name, mode)
+        return real_open(file, mode, *a, **kw)
+    patch(ctx, mofun.atoms, "open", redirecting_open)
+    patch(ctx, builtins, "open", redirecting_open)
+    patch(ctx, io, "open", redirecting_open)
     ctx.fs = fs
     return fs
